@@ -37,10 +37,11 @@ def alphabet() -> dict:
         "class": Item("class", 0, "class"),  # keyword
         "1x": Item("1x", 0, "1x"),  # digit-leading
         "__r": Item("__reserved", 0, "__r"),  # leading double underscore
+        "__h": Item("__hash__", 0, "__h"),  # an attribute every list has, with the value None
     }
 
 
-ITEMS = ["a1", "a2", "ap", "a_2", "keys", "class", "1x", "__r"]
+ITEMS = ["a1", "a2", "ap", "a_2", "keys", "class", "1x", "__r", "__h"]
 # names that may be in use in some state; when they are not, looking them up must fail
 NAME_UNIVERSE = ["a", "a_2", "a_3", "a_2_2", "keys_2", "_class", "_1x", "__reserved", "__reserved_2", "class", "1x", "nosuchname"]
 
